@@ -1,6 +1,7 @@
 package main
 
 import (
+	"go/constant"
 	"fmt"
 	"go/token"
 	"go/types"
@@ -485,7 +486,27 @@ func (p *Path) cmpOf(a Atom) cmp {
 			if !pol {
 				op = negOp(op)
 			}
-			return cmp{Op: op, X: p.R(Val{b.X, v.F, v.E}), Y: p.R(Val{b.Y, v.F, v.E}), Pol: true}
+			x, y := p.R(Val{b.X, v.F, v.E}), p.R(Val{b.Y, v.F, v.E})
+			// integer comparisons against +-1 are brought to their form against 0
+			// (x >= 1 is x > 0, x < 1 is x <= 0, x > -1 is x >= 0, x <= -1 is x < 0)
+			if k, ok := constInt(y.V); ok && isIntegerType(y.V.Type()) {
+				var nop token.Token
+				switch {
+				case k == 1 && op == token.GEQ:
+					nop = token.GTR
+				case k == 1 && op == token.LSS:
+					nop = token.LEQ
+				case k == -1 && op == token.GTR:
+					nop = token.GEQ
+				case k == -1 && op == token.LEQ:
+					nop = token.LSS
+				}
+				if nop != token.ILLEGAL {
+					op = nop
+					y = Val{ssa.NewConst(constant.MakeInt64(0), y.V.Type()), y.F, y.E}
+				}
+			}
+			return cmp{Op: op, X: x, Y: y, Pol: true}
 		}
 	}
 	return cmp{Op: token.ILLEGAL, X: v, Pol: pol}
@@ -974,4 +995,10 @@ func (e *pathEngine) leavesLoopOf(b, out, in *ssa.BasicBlock) bool {
 		}
 	}
 	return false
+}
+
+
+func isIntegerType(t types.Type) bool {
+	b, ok := t.Underlying().(*types.Basic)
+	return ok && b.Info()&types.IsInteger != 0
 }
